@@ -115,6 +115,8 @@ def job(args):
         exp_M = [(ONE, w.Mbc), (ONE, T['M1']), (ONE, T['M2']), (Rat.const(-1), T['M1']), (ONE, T['M2'])]
         exp_R = [(ONE, w.Rbc), (ONE, T['R1']), (ONE, T['R2']), (Rat.const(3), T['R2'])]
         w.ctx.events.clear()
+        w.interp.frozen_lists = {id(term_list): 'term.list'}
+        terms_before = list(term_list)
         construct = f"pdesolver.solvePDE/{solver_kind}"
         try:
             if solver_kind == 'external':
@@ -147,6 +149,9 @@ def job(args):
         # S1
         muts = [e for e in w.ctx.events if e[0] == 'input-mutated' and (str(e[1]).startswith('phi._BCsTerm') or str(e[1]).startswith('term.'))]
         ob('S1', construct, not muts, f"in-place writes into cached/handed-in storage: {muts[:3]}" if muts else "no write into the cached boundary system or the terms")
+        same_list = len(term_list) == len(terms_before) and all(x is y for x, y in zip(term_list, terms_before))
+        ob('S1', construct + '/term-list', same_list, "the caller's term list is unchanged (it can be reused in a time loop)" if same_list
+           else f"the caller's list of equation terms was changed by solvePDE: {len(terms_before)} -> {len(term_list)} entries")
         same_cache = phi.attrs.get('_BCsTerm') is not None
         # S4
         ob('S4', construct + '/identity', res is phi, "the variable passed in is returned" if res is phi else f"returns {res!r}")
